@@ -10,16 +10,22 @@ import tempfile
 import zlib
 
 from harness.common import Ck, coq_bytes, coq_list, coq_str, parse_coq_N_list
-from translate import c13_archname, c13_vpk
+from translate import c13_api, c13_archname, c13_nested, c13_nullstr, c13_vpk
 
 MANIFEST = dict(
     technique='Rocq proof: whole-history refinement of the executable VPK state machine to a plain map (invariant + induction over the '
               'operation list, every placement/dir_limit/size, CRC as a Section function with an explicit no-collision premise); directory-tree '
               'codec round trip (versions 1 and 2); archive file naming (writer and readers use the same file, symbolic evaluation of the '
               'translated prefix expressions); name forms; read-only rejection + ast translators (format constants, placement/validation sites, '
-              'prefix expression of every get_arch_filename site, the split statement of _get_file_parts) with kernel-checked instance '
-              'obligations + vm_compute correspondence (histories on real directories byte-exact, independent decode incl. version 2 and damaged '
-              'files, archive names really opened, name forms) + oracle search with a strict independent decoder',
+              'prefix expression of every get_arch_filename site, the split statement of _get_file_parts; round 3: the NUL-terminated string '
+              'codec by symbolic execution of _write_nullstring and loop-shape classification of iter_nullstr, the clean-up program of '
+              '__delitem__, new_file executed symbolically on a small heap, FileInfo.write/read/verify executed on symbolic values into decision tables '
+              '(24 placement rows, 4 read rows) that are judged in Coq against write_info/read_info, the truth table of __exit__, OpenModes.writable, '
+              'writability guards, _check_arch_index and the name validation executed on probe values, '
+              'load_dirfile reset, listing walks) with kernel-checked instance obligations + vm_compute correspondence (histories on real '
+              'directories byte-exact incl. with-blocks and load_dirfile() on the same object, independent decode incl. version 2 and damaged '
+              'files, archive names really opened, name forms, NUL-terminated streams, nested dicts) + oracle search with a strict independent '
+              'decoder',
     text='Theorems in Props/C13.v. c13_vpk_refines_map: for every configuration that validates indexes and names, every finite sequence of '
          'new_file/add_file/FileInfo.write/del/write_dirfile/reopen(r,w,a) on a fresh archive whose write_dirfile calls do not overflow a 32-bit '
          'field and whose data values (with the empty string) do not collide under the checksum: the model SM/Vpk.v returns the result code of '
@@ -33,21 +39,32 @@ MANIFEST = dict(
          'directory file, distinct indexes are distinct files and none is the directory file; character stripping (rstrip) is refuted by a '
          'computed witness. Name forms: string, 2-tuple and 3-tuple agree for every normpath whenever the translated split statement cuts at '
          'the last dot (first-dot split refuted). All generic theorems are instantiated by kernel-checked obligations on Gen/VpkPlace_gen.v and '
-         'Gen/VpkArchName_gen.v regenerated from vpk.py on every run.',
+         'Gen/VpkArchName_gen.v regenerated from vpk.py on every run. Round 3: c13_api_refines_map / c13_with_block_saves extend the whole-history '
+         'statement to with-blocks (left normally or by an exception, over the translated truth table of __exit__) and to load_dirfile() called '
+         'again on the same object; the NUL-terminated string codec of the tree is a translated description and every accepted reader shape (one '
+         'byte at a time, or blocks of any size in a loop) reads back every NUL-free string of any length (a single-block reader is refuted for '
+         'every block size); the nested dicts _fileinfo[ext][folder][name] satisfy the three finite-map laws for lookup (__getitem__), insertion '
+         '(new_file, over the translated get-or-create steps) and deletion (__delitem__, over the translated clean-up program, which is also the '
+         'flat delete of the state machine) for every tree without a well-formedness assumption; for dicts without duplicate keys (an invariant of '
+         'new_file/__delitem__) what __iter__ walks is exactly the table of the state machine after the same operations; the placement decision '
+         'functions want_cut/want_dest/want_src against which the symbolic tables of FileInfo.write/read/verify are checked are write_info / '
+         'read_info / verify_info of the model for all inputs; wrong variants are refuted by computed witnesses.',
     note='The model SM/Vpk.v (step/run), the codec Fmt/VpkDir.v/VpkDirV2.v, Fmt/VpkName.v and the string primitives of Fmt/VpkArchName.v are '
          'hand-written and tied to srctools.vpk by differential runs on every run (not by proof): histories on real temp directories compared '
          'byte-exactly, decode of written/damaged/version-2 files, the archive files really opened by the three get_arch_filename sites, name '
-         'forms. Trusted: Coq kernel + vm_compute (incl. Uint63 for the test CRC-32), translate/c13_vpk.py, translate/c13_archname.py, '
+         'forms, NUL-terminated streams, new_file/del sequences on the nested dicts. Trusted: Coq kernel + vm_compute (incl. Uint63 for the test '
+         'CRC-32), translate/c13_vpk.py, c13_archname.py, c13_nullstr.py, c13_nested.py, c13_api.py, c13_place.py (symbolic executors), '
          'zlib.crc32 (a Section variable in the theorems; its chaining crc32(b, crc32(a)) = crc32(a+b) is assumed), posixpath.normpath (a '
          'parameter of the name theorems), OS append/seek semantics (archives modelled as append-only byte lists; the "ab" open mode and '
          'seek(0, SEEK_END) are a translated site). Premises that are real limits of the code: a write whose CRC-32 equals the stored one is '
-         'skipped (collision premise); fields >= 4 GiB make write_dirfile raise. Outside the model: writing version 2, the root= argument, '
-         'add_folder/extract_all/script_write, VPKFileSystem, stale FileInfo handles, other processes, archive files present before the '
-         'history. File names whose last component ends in "." are listed without the dot (known finding name-trailing-dot).',
+         'skipped (collision premise); fields >= 4 GiB make write_dirfile raise. Only searched (not modelled): add_folder, extract_all, the '
+         'non-default arguments of filenames/fileinfos/folders, FileInfo.size. Outside: writing version 2, the root= argument, script_write, '
+         'VPKFileSystem, stale FileInfo handles, other processes, archive files present before the history, a load_dirfile() on the same object '
+         'that fails half-way. File names whose last component ends in "." are listed without the dot (known finding name-trailing-dot).',
 )
 
 IMPORTS = ['Coq.Lists.List', 'Coq.NArith.NArith', 'SV.Fmt.VpkDir', 'SV.SM.Vpk', 'SV.Fmt.VpkArchName', 'SV.SM.VpkCorr', 'SV.Gen.VpkPlace_gen',
-           'SV.Gen.VpkArchName_gen']
+           'SV.Gen.VpkArchName_gen', 'SV.Fmt.VpkNullStr', 'SV.Gen.VpkNullStr_gen', 'SV.SM.VpkNested', 'SV.Gen.VpkNested_gen', 'SV.SM.VpkApi', 'SV.Gen.VpkApi_gen', 'SV.SM.VpkNestedMap', 'SV.SM.VpkPlace']
 PRE = 'Import ListNotations. Open Scope N_scope.\n'
 
 R_OK, R_RO, R_EXISTS, R_MISSING, R_BADNAME, R_BADIDX, R_BADDIR, R_EXC = 0, 1, 2, 3, 4, 5, 6, 9
@@ -138,6 +155,33 @@ NONASCII = ['a/é.txt', 'ü/b.txt', 'a/b.中', 'a/\ud800.txt']
 TRAILING_DOT = ['a/b.c.', 'b.', 'a/b..', 'x/y.z.w.']
 ALPH = 'ab./ A\\~'
 
+# Tree strings of boundary lengths. The directory tree stores the folder path, the file stem and the extension each as one
+# NUL-terminated string of unbounded length; a reader that works on fixed-size blocks (seeded fault c13_4: 256 bytes) cannot read
+# back what the writer accepts. Every position gets lengths around the powers of two a block reader would use, and 1000/5000.
+LONG_LENGTHS = [127, 128, 129, 255, 256, 257, 511, 512, 513, 1000, 1023, 1024, 1025, 4096, 5000]
+LONG_POSITIONS = ['folder', 'nested', 'stem', 'ext']
+
+
+def long_name(pos: str, n: int) -> str:
+    """A file name whose tree string at position `pos` has exactly `n` characters."""
+    if pos == 'folder':
+        return 'F' * n + '/b.txt'
+    if pos == 'nested':     # one stored string: 'sub_00/sub_01/...'
+        path = '/'.join(f'sub_{i:02}' for i in range(n // 7 + 2))[:n]
+        if path.endswith('/'):
+            path = path[:-1] + 'x'
+        return path + '/b.txt'
+    if pos == 'stem':
+        return 'a/' + 's' * n + '.txt'
+    return 'a/b.' + 'e' * n
+
+
+LONG_NAMES = [long_name(p, n) for p in LONG_POSITIONS for n in LONG_LENGTHS]
+
+
+def longest_part(name: str) -> int:
+    return max(len(x) for x in ref_parts(name))
+
 
 def bud(ck: Ck, quick: int, mid: int, thorough: int) -> int:
     """Case budget: quick tier; quick tier after a tie broke (escalated, but kept within the quick wall-time limit); thorough tier."""
@@ -146,8 +190,10 @@ def bud(ck: Ck, quick: int, mid: int, thorough: int) -> int:
 
 def rand_name(rng: random.Random) -> str:
     r = rng.random()
-    if r < 0.75:
+    if r < 0.70:
         return rng.choice(NAME_POOL)
+    if r < 0.75:
+        return long_name(rng.choice(LONG_POSITIONS), rng.choice(LONG_LENGTHS) if rng.random() < 0.8 else rng.randrange(100, 1200))
     s = ''.join(rng.choice(ALPH) for _ in range(rng.choice([1, 2, 3, 4, 6])))
     _, tail = split_path(s)
     if tail.endswith('.'):        # trailing-dot names are a separate (known) class with its own stream
@@ -180,7 +226,7 @@ def case_fname(cfg: dict) -> str:
     return cfg.get('base', 'pak') + ('_dir.vpk' if cfg['dir'] else '.vpk')
 
 
-def gen_case(rng: random.Random, big: bool = False, nops: int | None = None, small: bool = False) -> dict:
+def gen_case(rng: random.Random, big: bool = False, nops: int | None = None, small: bool = False, api: bool = True) -> dict:
     cfg = {'dir': rng.random() < 0.75, 'limit': rng.choice(LIMITS)}
     if rng.random() < 0.5:      # the archive's own file name: prefixes that end in characters of '_dir', contain '_dir' or '.vpk'
         cfg['base'] = rng.choice(BASES)
@@ -211,14 +257,18 @@ def gen_case(rng: random.Random, big: bool = False, nops: int | None = None, sma
             ops.append(('new', name, form)); used.append(name)
         elif r < 0.68:
             ops.append(('del', name, form))
-        elif r < 0.82:
+        elif r < (0.76 if api else 0.82):
             ops.append(('save',))
+        elif r < 0.79:       # leaving a `with vpk:` block, normally (saves when writable) or by an exception (must not save)
+            ops.append(('exit', rng.random() < 0.7))
+        elif r < 0.82:       # load_dirfile() on the same object: a reopen in the same mode
+            ops.append(('reload',))
         elif r < 0.85:
             ops.append(('add', rng.choice(BAD_NAMES), rng.choice('s2'), data, idx))
         else:
             ops.append(('reopen', rng.choice('rwaaa' if ops and ops[-1] == ('save',) else 'rwa')))
     # the property's observation point: write the directory, reopen
-    ops.append(('save',))
+    ops.append(('exit', True) if api and rng.random() < 0.15 else ('save',))
     ops.append(('reopen', rng.choice('ra')))
     return {'cfg': cfg, 'ops': ops}
 
@@ -275,13 +325,17 @@ def run_spec(case: dict) -> list[dict]:
             code = R_RO if mode == 'r' else R_OK
             if code == R_OK:
                 saved = (dict(cur), dict(place))
-        elif k == 'reopen':
-            if op[1] == 'w':
+        elif k == 'exit':        # VPK.__exit__: never an error; saves exactly when no exception is in flight and the mode is writable
+            if op[1] and mode != 'r':
+                saved = (dict(cur), dict(place))
+        elif k in ('reopen', 'reload'):
+            to = op[1] if k == 'reopen' else mode
+            if to == 'w':
                 cur, place, saved, mode = {}, {}, None, 'w'
             elif saved is None:
                 code = R_BADDIR
             else:
-                cur, place, mode = dict(saved[0]), dict(saved[1]), op[1]
+                cur, place, mode = dict(saved[0]), dict(saved[1]), to
         out.append({'code': code, 'map': dict(cur), 'place': dict(place)})
     return out
 
@@ -319,6 +373,10 @@ def classify_exc(e: Exception) -> int:
     return R_EXC
 
 
+class _Boom(Exception):
+    pass
+
+
 def run_impl(case: dict, want_files: bool = False) -> dict:
     """Run a history on the real implementation in a fresh directory."""
     from srctools.vpk import VPK
@@ -344,6 +402,20 @@ def run_impl(case: dict, want_files: bool = False) -> dict:
                     del vpk[make_form(op[1], op[2])]
                 elif k == 'save':
                     vpk.write_dirfile()
+                elif k == 'exit':
+                    if op[1]:
+                        with vpk:
+                            pass
+                    else:
+                        try:
+                            with vpk:
+                                raise _Boom()
+                        except _Boom:
+                            pass
+                        else:
+                            code, err = R_EXC, 'VPK.__exit__ swallowed the exception raised inside the with block'
+                elif k == 'reload':
+                    vpk.load_dirfile()
                 elif k == 'reopen':
                     try:
                         vpk = VPK(path, mode=op[1], dir_data_limit=cfg['limit'])
@@ -390,6 +462,40 @@ def _forms_resolve(vpk, info, full: str) -> bool:
         return all((f in vpk) and (vpk[f] is info) for f in (make_form(full, 's'), make_form(full, '2'), make_form(full, '3')))
     except Exception:      # noqa
         return False
+
+
+def listing_api_problem(vpk, fin: dict) -> tuple[str, str] | None:
+    """The other listing methods on the final object against the specification map `fin` ((dir, name, ext) -> bytes):
+    fileinfos(), folders(), filenames(ext=)/(folder=), fileinfos(ext=)/(folder=), folders(ext=), FileInfo.size.  The folder
+    argument is a string prefix of the stored folder path (that is what the code documents and does)."""
+    keys = sorted(fin)
+    full = {k: join_parts(*k) for k in keys}
+    exts = sorted({k[2] for k in keys}) + ['zz']
+    dirs = sorted({k[0] for k in keys})
+    prefixes = sorted({d[:j] for d in dirs for j in (1, len(d)) if d and len(d) < 200} | {'', 'zz'})
+    checks = [
+        ('fileinfos()', lambda: sorted(i.filename for i in vpk.fileinfos()), sorted(full.values())),
+        ('folders()', lambda: sorted(vpk.folders()), dirs),
+        ('FileInfo.size', lambda: sorted((i.filename, i.size) for i in vpk), sorted((full[k], len(fin[k])) for k in keys)),
+    ]
+    for e in exts:
+        sel = sorted(full[k] for k in keys if k[2] == e)
+        checks.append(('fileinfos(ext)', lambda e=e: sorted(i.filename for i in vpk.fileinfos(ext=e)), sel))
+        checks.append(('folders(ext)', lambda e=e: sorted(vpk.folders(ext=e)), sorted({k[0] for k in keys if k[2] == e})))
+        if e:       # filenames(ext='') means every extension
+            checks.append(('filenames(ext)', lambda e=e: sorted(vpk.filenames(ext=e)), sel))
+    for pre in prefixes:
+        sel = sorted(full[k] for k in keys if k[0].startswith(pre))
+        checks.append(('filenames(folder)', lambda pre=pre: sorted(vpk.filenames(folder=pre)), sel))
+        checks.append(('fileinfos(folder)', lambda pre=pre: sorted(i.filename for i in vpk.fileinfos(folder=pre)), sel))
+    for api, f, want in checks:
+        try:
+            got = f()
+        except Exception as e:      # noqa
+            return (api, f'{api} raised {type(e).__name__}: {e}'[:250])
+        if got != want:
+            return (api, f'{api} gives {str(got[:4])[:200]} ({len(got)} items), expected {str(want[:4])[:200]} ({len(want)} items)')
+    return None
 
 
 def strict_decode(raw: bytes) -> tuple[dict, bytes]:
@@ -458,6 +564,12 @@ def check_case(case: dict) -> tuple[str, str, int] | None:
                         f'{op[0]} {op[1]!r} gave code {g["code"]} ({g["err"]}), expected ValueError', i)
             if e['code'] == R_RO:
                 return (f'readonly-accepted:{op[0]}', f'{op} in read mode gave code {g["code"]} ({g["err"]})', i)
+            if op[0] == 'reopen' and g['code'] == R_BADDIR:
+                names = [o[1] for o in case['ops'][:i] if o[0] in ('new', 'add')]
+                ln = max([longest_part(nm) for nm in names] or [0])
+                return ('reopen-rejects-written-directory' + (':long-tree-string' if ln >= 100 else ''),
+                        f'the directory file written by write_dirfile cannot be opened again in mode {op[1]!r}: {g["err"]}'[:300]
+                        + f' (longest folder/stem/extension string in the history: {ln} characters)', i)
             return (f'result-code:{op[0]}:expected{e["code"]}-got{g["code"]}', f'{op}: {g["err"]}', i)
         want = {k: (dg(v), True) for k, v in e['map'].items()}
         if g['obs'] != want:
@@ -482,6 +594,9 @@ def check_case(case: dict) -> tuple[str, str, int] | None:
     for k, ok in got['forms'].items():
         if not ok and not (k[2] == '' and '.' in k[1]):
             return ('name-forms-disagree', f'string/2-tuple/3-tuple forms of {join_parts(*k)!r} do not all resolve to the entry {k}', n)
+    lp = listing_api_problem(got['vpk'], fin)
+    if lp is not None:
+        return (f'listing-api:{lp[0]}', lp[1], n)
     # independent decode of the bytes on disk (the last operations are write_dirfile + reopen, so the file is the saved state)
     if exp[-1]['code'] == R_OK and case['ops'][-1][0] == 'reopen' and case['ops'][-1][1] != 'w':
         try:
@@ -492,6 +607,20 @@ def check_case(case: dict) -> tuple[str, str, int] | None:
             return ('independent-decode-mismatch', f'an independent reader finds {len(ents)} entries / {len(foot)} trailing bytes in the directory file, '
                     f'the library loads {len(got["entries"])} / {got["footer"][0]}', n)
     return None
+
+
+def shrink_name(nm: str, n: int) -> str | None:
+    """`nm` with its longest run of one character (or, for nested paths, its folder part) cut to n characters."""
+    import itertools
+    head, tail = split_path(nm)
+    if head.count('/') >= 3 and len(head) > n >= 1:
+        h = head[:n]
+        return (h[:-1] + 'x' if h.endswith('/') else h) + '/' + tail
+    runs = [(len(list(g)), ch) for ch, g in itertools.groupby(nm)]
+    ln, ch = max(runs)
+    if ln <= n:
+        return None
+    return nm.replace(ch * ln, ch * n, 1)
 
 
 def shrink_case(case: dict, key: str) -> dict:
@@ -507,6 +636,16 @@ def shrink_case(case: dict, key: str) -> dict:
             if cand['ops'] and bad(cand):
                 cur = cand
                 changed = True
+                break
+    # shrink long names: cut the longest tree string down to the smallest boundary length that still fails
+    for nm in sorted({o[1] for o in cur['ops'] if o[0] in ('new', 'add', 'write', 'del') and len(o[1]) > 40}):
+        for n in (1, 8, 64, 127, 128, 129, 255, 256, 257, 511, 512, 513, 1000, 1023, 1024, 1025):
+            short = shrink_name(nm, n)
+            if short is None or len(short) >= len(nm):
+                continue
+            cand = {'cfg': cur['cfg'], 'ops': [(o[0], short) + tuple(o[2:]) if len(o) > 1 and o[1] == nm else o for o in cur['ops']]}
+            if bad(cand):
+                cur = cand
                 break
     # shrink data sizes
     for i, op in enumerate(cur['ops']):
@@ -546,11 +685,21 @@ CORPUS = [
 ]
 
 
+# every tree-string position at the lengths around 256 and at 1000 (also compared against the model in corr_machine)
+LONG_CORPUS = [{'cfg': {'dir': True, 'limit': 4}, 'ops': [('add', 'k.t', 's', (2, 3), 0), ('add', long_name(p, n), f, (1, 9), 0), ('save',), ('reopen', m)]}
+               for p in LONG_POSITIONS for n, f, m in ((255, 's', 'r'), (256, '2', 'a'), (257, '3', 'r'), (1000, 's', 'a'))]
+
+
 def search(ck: Ck) -> None:
     n_small = bud(ck, 400, 1500, 6000)
     n_big = bud(ck, 14, 40, 300)
     found: dict[str, tuple] = {}
-    cases = list(CORPUS)
+    cases = list(CORPUS) + list(LONG_CORPUS)
+    for j, nm in enumerate(LONG_NAMES):     # every position x every boundary length, alone in an archive and next to another file
+        ops = [('add', nm, 's23'[j % 3], (1, 9), [0, None][j % 2])]
+        if j % 2:
+            ops = [('add', 'k.t', 's', (2, 3), 0)] + ops + [('save',), ('reopen', 'a'), ('write', nm, 's', (3, 20), 1), ('del', 'k.t', 's')]
+        cases.append({'cfg': {'dir': j % 4 != 3, 'limit': [4, None, 0][j % 3]}, 'ops': ops + [('save',), ('reopen', 'ra'[j % 2])]})
     for _ in range(n_small):
         cases.append(gen_case(ck.rng))
     for _ in range(n_big):
@@ -568,11 +717,13 @@ def search(ck: Ck) -> None:
             ck.hist('refinement_premise', 'data values collision-free under CRC-32')
         sp = run_spec(case)
         for op, e in zip(case['ops'], sp):
-            ck.hist('oracle_ops', op[0] + (':' + op[1] if op[0] == 'reopen' else ''))
+            ck.hist('oracle_ops', op[0] + (':' + op[1] if op[0] == 'reopen' else (':normal' if op[1] else ':exception') if op[0] == 'exit' else ''))
             ck.hist('oracle_codes', e['code'])
             if op[0] in ('add', 'write') and e['code'] == R_OK:
                 ck.hist('oracle_placement', placement(cfg, op[3][1], op[4]))
                 ck.hist('oracle_name_form', op[2])
+                ln = longest_part(op[1])
+                ck.hist('oracle_longest_tree_string', '<100' if ln < 100 else '100-254' if ln < 255 else str(ln) if ln in (255, 256, 257) else '258-1022' if ln < 1023 else '>=1023')
         if len(sp[-1]['map']) >= 1 and len({o[0] for o in case['ops']}) >= 3:
             ck.seen(('orc', repr(case)))
         r = check_case(case)
@@ -606,10 +757,99 @@ def search(ck: Ck) -> None:
             ck.violation(r[0], r[1], {'case': case})
 
 
+FOLDER_TREES = [
+    {'a.txt': (1, 5), 'sub/b.txt': (2, 22), 'sub/deep/c.dat': (3, 3000), 'noext': (1, 1), 'sub/d.tar.gz': (2, 44), 'sub/deep/e': (0, 0)},
+    {'only.bin': (1, 70000)},
+    {'x/y/z/w.txt': (1, 9), 'x/y.txt': (2, 9), 'x/y/q.txt': (3, 1025)},
+]
+FOLDER_PREFIXES = ['', 'pre', 'pre/fix', 'pre\\fix', 'pre/']
+
+
+def folder_stream(ck: Ck) -> None:
+    """add_folder (every file below a directory is added under <prefix>/<relative folder>/<name>) and extract_all, against files on
+    disk: only searched, not modelled."""
+    from srctools.vpk import VPK
+    n = 0
+    for ti, tree in enumerate(FOLDER_TREES):
+        for pi, prefix in enumerate(FOLDER_PREFIXES):
+            n += 1
+            if not ck.thorough and not ck.tie_broken and (ti + pi) % 2:
+                continue
+            d = tempfile.mkdtemp(prefix='c13f_', dir=os.environ.get('VERIF_SCRATCH', '/var/tmp'))
+            try:
+                src, out = os.path.join(d, 'src'), os.path.join(d, 'out')
+                for rel, spec in tree.items():
+                    os.makedirs(os.path.dirname(os.path.join(src, rel)), exist_ok=True)
+                    with open(os.path.join(src, rel), 'wb') as f:
+                        f.write(gen_data(*spec))
+                is_dir, limit = bool((ti + pi) % 3), [4, None, 1024][pi % 3]
+                path = os.path.join(d, 'pak_dir.vpk' if is_dir else 'pak.vpk')
+                pn = '/'.join(x for x in prefix.replace('\\', '/').split('/') if x)
+                want = {}
+                for rel, spec in tree.items():
+                    rd, _, fn = rel.rpartition('/')
+                    want[ref_parts(('/'.join(x for x in (pn, rd) if x), fn))] = (dg(gen_data(*spec)), True)
+                ck.count('oracle_folder_cases')
+                ck.hist('folder_stream', f"{'dir' if is_dir else 'single'}/limit={limit}/prefix={prefix!r}")
+                case = {'tree': tree, 'prefix': prefix, 'dir': is_dir, 'limit': limit, 'how': 'checks.c13.folder_stream: VPK(mode="w").add_folder(src, prefix); write_dirfile(); VPK(mode="r"); extract_all(out)'}
+                try:
+                    v = VPK(path, mode='w', dir_data_limit=limit)
+                    v.add_folder(src, prefix)
+                    v.write_dirfile()
+                    v2 = VPK(path, mode='r', dir_data_limit=limit)
+                    got = observe(v2)
+                except Exception as e:      # noqa
+                    ck.violation('add_folder-exception', f'add_folder/write_dirfile/reopen raised {type(e).__name__}: {e}'[:300], {'folder_case': case})
+                    continue
+                if got != want:
+                    ck.violation('add_folder-mismatch', f'after add_folder(prefix={prefix!r}) + write_dirfile + reopen: missing {sorted(set(want) - set(got))[:3]} '
+                                 f'extra {sorted(set(got) - set(want))[:3]} differing {[k for k in want if k in got and got[k] != want[k]][:3]}', {'folder_case': case})
+                    continue
+                try:
+                    v2.extract_all(out)
+                    bad = []
+                    for (dr, nm, ex), (dgst, _) in want.items():
+                        with open(os.path.join(out, dr, nm + ('.' + ex if ex else '')), 'rb') as f:
+                            if dg(f.read()) != dgst:
+                                bad.append((dr, nm, ex))
+                    extra = sum(len(fs) for _, _, fs in os.walk(out)) - len(want)
+                except Exception as e:      # noqa
+                    ck.violation('extract_all-exception', f'extract_all raised {type(e).__name__}: {e}'[:300], {'folder_case': case})
+                    continue
+                if bad or extra:
+                    ck.violation('extract_all-mismatch', f'extract_all: {len(bad)} files with other contents {bad[:3]}, {extra} unexpected files', {'folder_case': case})
+                elif len(want) >= 1:
+                    ck.seen(('folder', ti, pi))
+            finally:
+                shutil.rmtree(d, ignore_errors=True)
+
+
 # ------------------------------------------------------------------------------------------------ Coq literals
+def cbytes(b: bytes) -> str:
+    """A byte string as a Coq term of type list N; runs of one byte become `nrep byte count` (SM/VpkCorr.v) so that the long
+    names and streams of the boundary-length cases stay cheap to parse and type-check."""
+    if len(b) < 48:
+        return coq_bytes(b)
+    import itertools
+    parts: list[str] = []
+    lit: list[int] = []
+    for x, g in itertools.groupby(b):
+        k = len(list(g))
+        if k >= 24:
+            if lit:
+                parts.append(coq_bytes(bytes(lit)))
+                lit = []
+            parts.append(f'nrep {x} {k}')
+        else:
+            lit += [x] * k
+    if lit:
+        parts.append(coq_bytes(bytes(lit)))
+    return '(' + ' ++ '.join(parts) + ')' if len(parts) > 1 else parts[0] if parts[0].startswith('[') else '(' + parts[0] + ')'
+
+
 def c_key(parts) -> str:
     e, d, n = mkey(parts)
-    return f'({coq_bytes(e)}, {coq_bytes(d)}, {coq_bytes(n)})'
+    return f'({cbytes(e)}, {cbytes(d)}, {cbytes(n)})'
 
 
 def c_idx(i) -> str:
@@ -632,7 +872,19 @@ def c_op(op) -> str | None:
         return f'{"OAdd" if k == "add" else "OWrite"} {key} (gen {op[3][0]} {op[3][1]}) {c_idx(op[4])}'
     if k == 'save':
         return 'OSave'
+    if k in ('exit', 'reload'):
+        return None
     return 'OReopen M' + op[1].upper()
+
+
+def c_xop(op) -> str | None:
+    """An operation of SM/VpkApi.v [xop]: the six of the state machine, leaving a with-block, load_dirfile() on the same object."""
+    if op[0] == 'exit':
+        return 'XExit ' + ('true' if op[1] else 'false')
+    if op[0] == 'reload':
+        return 'XReload'
+    c = c_op(op)
+    return None if c is None else f'XOp ({c})'
 
 
 def c_cfg(cfg) -> str:
@@ -648,9 +900,9 @@ def c_dg(d) -> str:
 def corr_machine(ck: Ck) -> None:
     """SM/Vpk.v run on the same histories as the implementation: per-op code and summary, final per-file digests,
     byte-exact directory file and archives (length + CRC32)."""
-    n_small = bud(ck, 220, 600, 3000)
+    n_small = bud(ck, 170, 600, 2500)
     n_big = bud(ck, 3, 8, 40)
-    cases = [c for c in CORPUS]
+    cases = [c for c in CORPUS] + list(LONG_CORPUS)
     for _ in range(n_small):
         cases.append(gen_case(ck.rng, small=True))
     for _ in range(n_big):
@@ -658,9 +910,12 @@ def corr_machine(ck: Ck) -> None:
     lits = []
     kept = []
     for case in cases:
-        cops = [c_op(o) for o in case['ops']]
+        cops = [c_xop(o) for o in case['ops']]
         if any(c is None for c in cops):
             continue
+        for o in case['ops']:
+            if o[0] in ('exit', 'reload'):
+                ck.hist('machine_api_ops', o[0] + ((':normal' if o[1] else ':exception') if o[0] == 'exit' else ''))
         try:
             got = run_impl(case)
         except Exception as e:      # noqa
@@ -682,8 +937,8 @@ def corr_machine(ck: Ck) -> None:
         if len(got['steps'][-1]['obs']) >= 1:
             ck.seen(('corr', repr(case)))
     bad: list[tuple[int, int]] = []
-    fn = ('(fun c : vcfg * list op * list N * list obs_t * (N * N) * list (N * (N * N)) => '
-          'let \'(cf, ops, tr, fin, dsk, ars) := c in check_case cf ops tr fin dsk ars)')
+    fn = ('(fun c : vcfg * list xop * list N * list obs_t * (N * N) * list (N * (N * N)) => '
+          'let \'(cf, ops, tr, fin, dsk, ars) := c in check_xcase g_exit_table cf ops tr fin dsk ars)')
     for lo in range(0, len(lits), 250):
         part = lits[lo:lo + 250]
         vals = ck.coq_eval(IMPORTS, [f'map {fn} {coq_list(part)}'], name='vpkcorr', preamble=PRE)
@@ -693,10 +948,10 @@ def corr_machine(ck: Ck) -> None:
             return
         res = parse_coq_N_list(vals[0])
         bad += [(lo + i, r) for i, r in enumerate(res) if r != 0]
-    what = {1: 'model write_dirfile overflow', 2: 'per-operation codes/summaries', 3: 'final per-file contents/verify',
+    what = {1: 'outside the model (write_dirfile overflow, failing load_dirfile() on the same object, __exit__ table not understood)', 2: 'per-operation codes/summaries', 3: 'final per-file contents/verify',
             4: '_dir file bytes (length, crc32)', 5: 'archive files (length, crc32)'}
     ck.obligation('correspondence:machine', not bad,
-                  f'{len(lits)} histories, model SM/Vpk.v (vm_compute, real CRC-32) vs srctools.vpk on temp directories: '
+                  f'{len(lits)} histories, model SM/Vpk.v + SM/VpkApi.v xrun over the translated __exit__ table (vm_compute, real CRC-32) vs srctools.vpk on temp directories: '
                   f'{len(bad)} disagreements' + (f'; first: {what.get(bad[0][1])}' if bad else ''))
     if kept:
         ck.sample({'history': kept[min(12, len(kept) - 1)], 'compared': 'codes, per-file (len,crc32,verify), _dir bytes, archives'})
@@ -859,6 +1114,183 @@ def corr_names(ck: Ck) -> None:
         ck.extra['names_disagreement'] = {'form': repr(forms[bad[0]]), 'impl': repr(_get_file_parts(forms[bad[0]]))}
 
 
+# ------------------------------------------------------------------------------------------------ NUL-terminated strings
+def corr_nullstr(ck: Ck) -> None:
+    """Fmt/VpkNullStr.v over the translated code shape (g_ncodec) vs iter_nullstr / _write_nullstring on in-memory files: the strings
+    the generator yields, the position it leaves the file at, or that it raises."""
+    import io
+    from srctools import vpk as vpkmod
+    n = bud(ck, 100, 300, 1500)
+    rng = ck.rng
+    lens = [0, 1, 1, 2, 3, 7, 31, 32, 33, 63, 64, 65]
+
+    def rstr() -> bytes:
+        r = rng.random()
+        if r < 0.08:
+            return b''
+        if r < 0.16:
+            return rng.choice([b' ', b'  ', b' a', b'\x80\xff', b'\xfe'])
+        ln = rng.choice(lens) if r < 0.7 else rng.choice(LONG_LENGTHS[:12]) if r < 0.8 else rng.randrange(0, 300)
+        ch = rng.choice([b'a', b'F', b'/', b'.', b' ', b'\xff', b'\x01'])
+        return ch * ln if rng.random() < 0.7 else bytes(rng.choice(b'ab/. _\x7f\x80\xff') for _ in range(ln))
+    streams: list[bytes] = []
+    fixed = [b'', b'\x00', b' \x00\x00', b'abc', b'abc\x00', b'a\x00b\x00\x00rest', b'a\x00b', b'\x00\x00', b' ', b'  \x00\x00']
+    for ln in LONG_LENGTHS + [254, 258]:       # every boundary length between other strings; 255..257 also alone and unterminated
+        fixed.append(b'k\x00' + b'F' * ln + b'\x00s\x00\x00tail')
+        if ln in (255, 256, 257):
+            fixed += [b'e' * ln + b'\x00\x00', b'x' * ln, b'a\x00' + b's' * ln + b'\x00' + b'e' * ln + b'\x00\x00']
+    streams += fixed
+    while len(streams) < n:
+        sec = [rstr() for _ in range(rng.choice([0, 1, 1, 2, 3, 5]))]
+        b = b''.join((s or b' ') + b'\x00' for s in sec)
+        r = rng.random()
+        if r < 0.7:
+            b += b'\x00' + bytes(rng.randrange(256) for _ in range(rng.choice([0, 0, 1, 18, 40])))
+        elif r < 0.85 and b:
+            b = b[:rng.randrange(len(b))]          # truncated: may end without a terminator
+        streams.append(b)
+    lits = []
+    for b in streams[:n + len(fixed)]:
+        f = io.BytesIO(b)
+        try:
+            got = [x.encode('ascii', 'surrogateescape') for x in vpkmod.iter_nullstr(f)]
+            ex = f'(Some ({coq_list(c_dg(dg(x)) for x in got) if got else "@nil (N * N)"}, {len(b) - f.tell()}))'
+            ck.hist('nullstr_stream', 'section read' + (' (a string of >= 255 bytes)' if any(len(x) >= 255 for x in got) else ''))
+            if got:
+                ck.seen(('ns', b))
+        except Exception:      # noqa
+            ex = 'None'
+            ck.hist('nullstr_stream', 'generator raises')
+        lits.append(f'({cbytes(b)}, {ex})')
+        ck.count('corr_nullstr_streams')
+    wl = []
+    for s in ['', ' ', 'a', 'txt', 'a b', '\udc80\udcff', 'x' * 255, 'x' * 256, 'F' * 1000] + [rstr().decode('ascii', 'surrogateescape') for _ in range(30)]:
+        if '\x00' in s:
+            continue
+        f = io.BytesIO()
+        vpkmod._write_nullstring(f, s)
+        wl.append(f'({cbytes(enc(s))}, {cbytes(f.getvalue())})')
+        ck.count('corr_nullstr_written')
+    bad: list[int] = []
+    for lo in range(0, len(lits), 120):
+        vals = ck.coq_eval(IMPORTS, [f'bad_idx (fun c : bytes * option (list (N * N) * N) => check_nullstr_dg g_ncodec (fst c) (snd c)) 0 {coq_list(lits[lo:lo + 120])}']
+                           + ([f'bad_idx (fun c : bytes * bytes => check_wcstr g_ncodec (fst c) (snd c)) 0 {coq_list(wl)}'] if lo == 0 else []),
+                           name='vpknullstr', preamble=PRE)
+        if vals is None:
+            ck.obligation('correspondence:nullstr', False, 'model could not be evaluated')
+            ck.tie_broken.append('correspondence VPK null-terminated strings: model evaluation failed')
+            return
+        bad += [lo + i for i in parse_coq_N_list(vals[0])]
+        if lo == 0:
+            bad += [-1 - i for i in parse_coq_N_list(vals[1])]
+    ck.obligation('correspondence:nullstr', not bad,
+                  f'{len(lits)} byte streams (sections of strings of length 0..5000 incl. 255/256/257, truncated and arbitrary tails) through iter_nullstr and '
+                  f'{len(wl)} strings through _write_nullstring vs Fmt/VpkNullStr.v over the translated code shape: {len(bad)} disagreements')
+    if bad:
+        ck.tie_broken.append('correspondence VPK null-terminated strings (Fmt/VpkNullStr.v vs iter_nullstr/_write_nullstring)')
+        ck.extra['nullstr_disagreement'] = {'literal': (lits[bad[0]] if bad[0] >= 0 else wl[-1 - bad[0]])[:2000]}
+
+
+# ------------------------------------------------------------------------------------------------ nested dicts
+def corr_nested(ck: Ck) -> None:
+    """SM/VpkNested.v ndel over the clean-up program compiled from VPK.__delitem__ vs the implementation's _fileinfo dicts:
+    which deletes raise KeyError and the key structure (dict order, empty dicts included) left behind."""
+    from srctools.vpk import VPK
+    n = bud(ck, 100, 400, 1500)
+    rng = ck.rng
+    exts, dirs, stems = ['t', 'u', ''], ['a', 'b', '', 'a/b'], ['x', 'y', 'z']
+    lits = []
+    d = tempfile.mkdtemp(prefix='c13t_', dir=os.environ.get('VERIF_SCRATCH', '/var/tmp'))
+
+    def shape(v) -> str:
+        return coq_list(f'({coq_bytes(enc(e))}, ' + coq_list(f'({coq_bytes(enc(p))}, ' + (coq_list(coq_bytes(enc(nm)) for nm in fs) if fs else '@nil (list N)') + ')'
+                                                            for p, fs in ds.items()) + ')' if ds else f'({coq_bytes(enc(e))}, @nil (list N * list (list N)))'
+                        for e, ds in v._fileinfo.items()) if v._fileinfo else '@nil (list N * list (list N * list (list N)))'
+    try:
+        for j in range(n):
+            v = VPK(os.path.join(d, 'n.vpk'), mode='w')
+            pool = [(rng.choice(dirs), rng.choice(stems), rng.choice(exts)) for _ in range(rng.choice([1, 2, 3, 5, 8]))]
+            for k in pool:
+                if k not in v:
+                    v.new_file(k)
+            before = shape(v)
+            ks = [rng.choice(pool) if rng.random() < 0.8 else (rng.choice(dirs), rng.choice(stems), rng.choice(exts)) for _ in range(rng.choice([1, 2, 3, 6]))]
+            oks = []
+            for k in ks:
+                try:
+                    del v[k]
+                    oks.append(True)
+                except KeyError:
+                    oks.append(False)
+            lits.append(f'({before}, {coq_list(c_key(k) for k in ks)}, {coq_list("true" if o else "false" for o in oks)}, {shape(v)})')
+            ck.count('corr_nested_deletes')
+            ck.hist('nested_delete', f'{sum(oks)} of {len(ks)} deletes succeed')
+            if any(oks) and len(v):
+                ck.seen(('nd', tuple(pool), tuple(ks)))
+    finally:
+        shutil.rmtree(d, ignore_errors=True)
+    vals = ck.coq_eval(IMPORTS, ['bad_idx (fun c : shape_t * list key * list bool * shape_t => let \'(s, ks, oks, a) := c in check_ndel g_del_prog s ks oks a) 0 '
+                                 + coq_list(lits)], name='vpknested', preamble=PRE)
+    if vals is None:
+        ck.obligation('correspondence:nested-delete', False, 'model could not be evaluated')
+        ck.tie_broken.append('correspondence VPK nested dicts: model evaluation failed')
+        return
+    bad = parse_coq_N_list(vals[0])
+    ck.obligation('correspondence:nested-delete', not bad,
+                  f'{len(lits)} archives x 1..6 deletes: SM/VpkNested.v ndel over the clean-up program compiled from __delitem__ vs the '
+                  f'_fileinfo dicts of the implementation (KeyError or not, keys left at all three levels in dict order): {len(bad)} disagreements')
+    if bad:
+        ck.tie_broken.append('correspondence VPK nested dicts (SM/VpkNested.v vs VPK.__delitem__)')
+        ck.extra['nested_disagreement'] = {'literal': lits[bad[0]][:1500]}
+    # new_file and del mixed, from an empty archive: SM/VpkNestedMap.v nrun over the translated get-or-create descriptions and clean-up
+    lits2 = []
+    d = tempfile.mkdtemp(prefix='c13t_', dir=os.environ.get('VERIF_SCRATCH', '/var/tmp'))
+    rk = lambda: (rng.choice(dirs), rng.choice(stems), rng.choice(exts))
+    try:
+        for j in range(n):
+            v = VPK(os.path.join(d, 'm.vpk'), mode='w')
+            ops, oks = [], []
+            for _ in range(rng.choice([2, 4, 8, 14])):
+                k = rk()
+                if rng.random() < 0.65:
+                    ops.append(f'NIns {c_key(k)}')
+                    try:
+                        v.new_file(k)
+                        oks.append(True)
+                    except (FileExistsError, KeyError):
+                        oks.append(False)
+                else:
+                    ops.append(f'NDel {c_key(k)}')
+                    try:
+                        del v[k]
+                        oks.append(True)
+                    except KeyError:
+                        oks.append(False)
+            probes = [(k, k in v) for k in (rk() for _ in range(4))]
+            lits2.append(f'({coq_list(ops)}, {coq_list("true" if o else "false" for o in oks)}, {shape(v)}, '
+                         + coq_list(f'({c_key(k)}, {"true" if b else "false"})' for k, b in probes) + ')')
+            ck.count('corr_nested_histories')
+            ck.hist('nested_history', f'{len(ops)} operations, {len(v)} files at the end' if len(ops) <= 4 else f'{len(ops)} operations')
+            if len(v) and not all(oks):
+                ck.seen(('nm', tuple(ops)))
+    finally:
+        shutil.rmtree(d, ignore_errors=True)
+    vals = ck.coq_eval(IMPORTS, ['bad_idx (fun c : list nop * list bool * shape_t * list (key * bool) => let \'(ops, oks, a, pr) := c in '
+                                 'check_nrun g_ins_ext g_ins_dir g_ins_exists_check g_del_prog ops oks a pr) 0 ' + coq_list(lits2)], name='vpknestedmap', preamble=PRE)
+    if vals is None:
+        ck.obligation('correspondence:nested-map', False, 'model could not be evaluated')
+        ck.tie_broken.append('correspondence VPK nested map: model evaluation failed')
+        return
+    bad = parse_coq_N_list(vals[0])
+    ck.obligation('correspondence:nested-map', not bad,
+                  f'{len(lits2)} sequences of 2..14 new_file/del from an empty archive: SM/VpkNestedMap.v nrun (translated get-or-create steps of new_file, '
+                  f'clean-up of __delitem__) vs the implementation (which calls raise, keys at all three levels in dict order, 4 membership probes each): '
+                  f'{len(bad)} disagreements')
+    if bad:
+        ck.tie_broken.append('correspondence VPK nested map (SM/VpkNestedMap.v vs VPK.new_file/__delitem__/__contains__)')
+        ck.extra['nested_map_disagreement'] = {'literal': lits2[bad[0]][:1500]}
+
+
 # ------------------------------------------------------------------------------------------------ archive file names
 NAME_SUFFIXES = ['_dir.vpk', '.vpk', '', '_dir', 'dir.vpk', '_DIR.vpk', '.vpk_dir.vpk', '_dir.vpk.vpk', '_dir_dir.vpk', '__dir.vpk']
 NAME_INDEXES = [0, 1, 7, 10, 99, 100, 999, 1000, 32766]
@@ -960,7 +1392,9 @@ def corr_archnames(ck: Ck) -> list[str]:
 
 # ------------------------------------------------------------------------------------------------ main
 def run(ck: Ck) -> None:
-    ck.rule = ('histories: random sequences of new/add/write/del/write_dirfile/reopen(r,w,a) over a pool of names that collide '
+    ck.rule = ('histories: random sequences of new/add/write/del/write_dirfile/reopen(r,w,a)/with-block exit (normal, exception)/load_dirfile() on '
+               'the same object over a pool of names that collide, 5% with a tree string (folder, nested folder path, stem, extension) of a boundary '
+               'length 127..5000 '
                '(empty folder/extension parts, three name forms, normalised paths) with sizes clustered around dir_limit, 1024 and '
                '65535/65536 up to 300000, limits None/0/1/4/8/64/1024/70000, indexes None/0/1/.../32766 and out-of-range, _dir and '
                'singular archives, always ending in write_dirfile + reopen; non-trivial = at least one file exists at the end and '
@@ -969,10 +1403,14 @@ def run(ck: Ck) -> None:
                'non-trivial = at least one entry loads. names: pool + random strings over "ab./\\\\ ", non-trivial = not all parts empty. '
                'archive names: VPK file names = bases ending in/containing characters of "_dir.vpk" x suffixes (_dir.vpk, .vpk, none, _dir, '
                'dir.vpk, _DIR.vpk, ...) + random strings over "_dir.vpka0", two distinct indexes from 0..32766 each; observed = _dir_prefix and '
-               'the file each of the three get_arch_filename sites really opens; non-trivial = a directory VPK.')
+               'the file each of the three get_arch_filename sites really opens; non-trivial = a directory VPK. NUL-terminated streams: '
+               'sections of strings incl. lengths around 255/256 and damaged streams. nested dicts: 1..8 files over 3 extensions x 4 folders x 3 '
+               'stems then 1..6 deletes; sequences of 2..14 new_file/del from an empty archive with 4 membership probes. folders: add_folder over 3 '
+               'directory trees x 5 prefixes, extract_all.')
     ck.trusted.append('hand-written models Fmt/VpkDir.v, Fmt/VpkDirV2.v, SM/Vpk.v, Fmt/VpkName.v, string primitives of Fmt/VpkArchName.v (tied by '
                       'differential correspondence on every run); zlib.crc32 incl. its chaining property; posixpath.normpath; '
-                      'translate/c13_archname.py')
+                      'translate/c13_archname.py, c13_nullstr.py, c13_nested.py, c13_api.py; hand-written SM/VpkApi.v, SM/VpkNested.v, '
+                      'SM/VpkNestedMap.v, Fmt/VpkNullStr.v (tied by the translated descriptions and by correspondence)')
     ck.assumptions += [
         'the data values written in one history, together with the empty string, have pairwise different CRC-32 unless equal (premise collision_free of c13_vpk_refines_map: FileInfo.write skips a write whose checksum equals the stored one; checked with zlib on every generated history, see input_distribution.refinement_premise)',
         'no archive or directory field exceeds 32 bits (write_dirfile would raise struct.error; the refinement is stated for histories whose run is not None)',
@@ -981,7 +1419,10 @@ def run(ck: Ck) -> None:
     ]
     ok_t = ck.translate('VpkPlace_gen', c13_vpk.translate)
     ok_t = ck.translate('VpkArchName_gen', c13_archname.translate) and ok_t
-    built = ok_t and ck.build(['Props/C13.vo', 'SM/VpkCorr.vo', 'Gen/VpkPlace_gen.vo', 'Gen/VpkArchName_gen.vo'])
+    ok_t = ck.translate('VpkNullStr_gen', c13_nullstr.translate) and ok_t
+    ok_t = ck.translate('VpkNested_gen', c13_nested.translate) and ok_t
+    ok_t = ck.translate('VpkApi_gen', c13_api.translate) and ok_t
+    built = ok_t and ck.build(['Props/C13.vo', 'SM/VpkCorr.vo', 'Gen/VpkPlace_gen.vo', 'Gen/VpkArchName_gen.vo', 'Gen/VpkNullStr_gen.vo', 'Gen/VpkNested_gen.vo', 'Gen/VpkApi_gen.vo'])
     if built:
         ck.theorems('Props/C13.v')
         ck.instance_obligations(IMPORTS + ['SV.Fmt.VpkNameSplit', 'SV.Props.C13'], {
@@ -992,9 +1433,13 @@ def run(ck: Ck) -> None:
             'entry_layout_read_is_IHHIIH': 'nlist_eqb g_entry_widths_read entry_widths_expected',
             'entry_field_order_matches': 'g_entry_fields_match',
             'zero_arch_len_resets_offset': 'g_zero_len_resets_offset',
-            'empty_string_is_a_space_on_both_sides': 'g_blank_is_space',
+            'empty_string_is_a_space_on_both_sides': 'andb (bytes_eqb (nc_blank_r g_ncodec) (32%N :: nil)) (bytes_eqb (nc_blank_w g_ncodec) (32%N :: 0%N :: nil))',
             'preload_capped_at_16_bits': 'andb g_preload_capped (match g_max_preload with Some m => N.leb m 65535 | None => false end)',
             'dir_tail_goes_to_footer_data': 'g_tail_to_footer',
+            # premise of c13_write_placement_is_table: the table obtained by executing FileInfo.write on symbolic values
+            'write_placement_table_matches_model': 'place_table_ok g_place_table',
+            'write_with_unchanged_checksum_has_no_effect': 'g_same_crc_skips',
+            'read_and_verify_take_the_bytes_from_where_write_put_them': 'read_table_ok g_read_table',
             'archive_index_validated': 'g_chk_idx',
             'unrepresentable_names_rejected': 'g_chk_name',
             'instance_satisfies_theorem_premises': 'andb (vcfg_ok (g_vcfg true (Some 1024%N))) (vcfg_ok (g_vcfg false None))',
@@ -1009,12 +1454,51 @@ def run(ck: Ck) -> None:
             'archive_sites_same_folder_and_index': 'andb g_index_args_ok g_sites_join_folder',
             'archive_appended_at_end_and_read_at_offset': 'g_archive_append_at_end',
             'deprecated_file_prefix_setter_consistent': 'g_prefix_setter_consistent',
+            # NUL-terminated strings of the tree (Gen/VpkNullStr_gen.v): premises of c13_nullstr_*
+            'nullstr_reader_reads_strings_of_any_length': 'reader_ok (nc_reader g_ncodec)',
+            'nullstr_writer_terminates_with_one_nul': 'bytes_eqb (nc_term g_ncodec) (0%N :: nil)',
+            'nullstr_reader_dispatch_blank_end_string': 'nc_dispatch g_ncodec',
+            'nullstr_same_text_codec_on_both_sides': 'nc_same_codec g_ncodec',
+            'nullstr_instance_satisfies_theorem_premises': 'ncodec_ok g_ncodec',
+            # nested dicts (Gen/VpkNested_gen.v): premise of c13_nested_delete_is_flat_delete
+            'del_cleanup_pops_only_empty_dicts': 'prog_safe g_del_prog',
+            'del_cleanup_leaves_no_empty_dict': 'prog_tidy g_del_prog',
+            'del_checks_writable_before_touching': 'g_del_checks_writable_first',
+            'del_missing_file_raises_keyerror': 'g_del_keyerror',
+            'nested_dicts_indexed_ext_folder_name_everywhere': 'g_nest_order_ext_folder_name',
+            # premises of c13_nested_map_lookup_after_new_file
+            'new_file_reuses_or_creates_the_extension_dict': 'goc_ok g_ins_ext',
+            'new_file_reuses_or_creates_the_folder_dict': 'goc_ok g_ins_dir',
+            'new_file_rejects_an_existing_name': 'g_ins_exists_check',
+            # API around the state machine (Gen/VpkApi_gen.v): premises of c13_api_refines_map / c13_with_block_saves, guards, listing walks
+            'exit_saves_iff_no_exception_and_writable': 'exit_table_ok g_exit_table',
+            'open_mode_writable_is_w_and_a': 'mode_table_ok g_writable_r g_writable_w g_writable_a',
+            'check_writable_raises_iff_not_writable': 'g_check_writable_raises_iff_not_writable',
+            'guard_before_any_effect_new_file': 'g_guard_new_file',
+            'guard_before_any_effect_add_file': 'g_guard_add_file',
+            'guard_before_any_effect_add_folder': 'g_guard_add_folder',
+            'guard_before_any_effect_delitem': 'g_guard_delitem',
+            'guard_before_any_effect_write_dirfile': 'g_guard_write_dirfile',
+            'guard_before_any_effect_fileinfo_write': 'g_guard_fileinfo_write',
+            'no_other_method_stores_into_the_archive': 'g_no_other_mutating_method',
+            'load_dirfile_empties_the_object_before_reading': 'g_load_dirfile_resets_first',
+            'listing_iter_walks_every_file': 'g_walk_iter',
+            'listing_len_counts_every_file': 'g_walk_len',
+            'listing_filenames_default_walks_every_file': 'g_walk_filenames',
+            'listing_fileinfos_default_walks_every_file': 'g_walk_fileinfos',
+            'tree_strings_all_go_through_the_codec': 'andb g_tree_strings_read_by_iter_nullstr g_tree_strings_written_by_write_nullstring',
         }, name='vpkinst')
-        corr_archnames(ck)
-        corr_machine(ck)
-        corr_decode(ck)
-        corr_names(ck)
+        import time as _t
+        t0 = _t.time()
+        for fn in (corr_archnames, corr_nullstr, corr_nested, corr_machine, corr_decode, corr_names):
+            fn(ck)
+            if os.environ.get('C13_TIMING'):
+                print(f'  [timing] {fn.__name__}: {_t.time() - t0:.1f}s'); t0 = _t.time()
+    t0 = __import__('time').time()
     search(ck)
+    folder_stream(ck)
+    if os.environ.get('C13_TIMING'):
+        print(f'  [timing] search: {__import__("time").time() - t0:.1f}s')
     keys = {v['key'] for v in ck.violations}
     # failed obligations are explained when the search exhibits the corresponding concrete history
     if any(k.startswith(('content-mismatch:dir-tail', 'verify-failed:dir-tail', 'content-mismatch:limit-over-64k-dir-tail')) for k in keys):
@@ -1029,6 +1513,7 @@ def run(ck: Ck) -> None:
         # a concrete failing history on the implementation explains a broken format/site obligation or correspondence
         ck.explain('correspondence:')
         ck.explain('instance:')
+        ck.explain('translate:')
 
 
 def replay(data: dict) -> int:
@@ -1044,6 +1529,9 @@ def replay(data: dict) -> int:
             print('    impl  :', s['obs'])
             print('    expect:', {k: (dg(v), True) for k, v in e['map'].items()})
         print('filenames():', got['names'])
+        return 0
+    if 'folder_case' in r:
+        print(r['folder_case'])
         return 0
     if 'fname' in r:
         dp, sites = arch_sites_impl(r['fname'], list(r['indexes']))
